@@ -1221,7 +1221,7 @@ def generic_args_flat(raw):
             i = match_close(s, i) + 1
             continue
         i += 1
-    return [x for x in out if not x.startswith("'")]
+    return [x for x in out if not x.startswith("'") and not (x.startswith("impl ") and ("[" in x or x in ("impl str",) or x.split(" ")[1] in INT_RANGES))]
 
 
 def _type_args(ty):
